@@ -688,19 +688,28 @@ end ExBuild
 
 end BuilderSteps
 
-/-! ## Builder side, program level: edge locality of every program of plain dataflow-graph builders
+/-! ## Builder side, program level: edge locality of every program of the `DfBase._wire_up_port` builder families
 
   The step theorems above are lifted to whole programs for the sub-language `BuildLocal.InL` of the builder model's
-  command language (`Build.step`): `Dfg(...)`, `add_op` (any operation, any wires), `add_nested` (to any depth) and
-  `set_outputs`.  For every such program that runs without a builder call raising, every HUGR it has built
-  satisfies, for every link into a value port: the target has an ancestor-or-self with the same parent as the
-  source (rule R6.relation: the source is a sibling of an ancestor of the target), and if that ancestor is not the
-  target itself — the link enters a nested region — the state-order link from the source to that ancestor is present
-  (rule R6.order_edge).  No hypothesis on the program beyond membership in the sub-language: arbitrary
-  interleavings of the commands over any number of builders, wires used any number of times, nesting of any depth.
+  command language (`Build.step`, 62 commands): 38 commands — `Dfg(...)`, `Function(...)`, `TailLoop(...)`,
+  `TrackedDfg(...)`, `Module()`, `Conditional(...)`; `add_op`, `add`, `extend` (plain and tracked, with index
+  rebinding); `add_nested`, `add_tail_loop`, `add_conditional`, `add_case`, `add_if`, `add_else` (to any depth);
+  `set_outputs` of every non-block builder class, `set_loop_outputs`, `declare_outputs`, `add_state_order`;
+  `define_function`, `define_main`, `declare_function`, `add_const`, `add_alias_defn`, `add_alias_decl`; the tracked
+  wire commands; `to_json`.  NOT in it: control-flow graphs and basic blocks (`Block._wire_up_port` admits dominator
+  edges: `block_wire_links` above), `call` / `load` / `load_function` (they add static edges, whose locality the
+  builders do not check) and the `insert_*` family (`insert_hugr` copies another HUGR's links: C08).
+
+  For every such program that runs without a builder call raising, every HUGR it has built satisfies, for every
+  link into a value port: the target has an ancestor-or-self with the same parent as the source (rule
+  R6.relation: the source is a sibling of an ancestor of the target), and if that ancestor is not the target itself
+  — the link enters a nested region — the state-order link from the source to that ancestor is present (rule
+  R6.order_edge).  No hypothesis on the program beyond membership in the sub-language: arbitrary interleavings of
+  the commands over any number of builders and HUGRs, wires used any number of times, nesting of any depth.
   The proof is an invariant (`BuildLocal.BInv`: link-map invariant, free-list invariant and `LocInv` on every
-  store) shown for every store step the commands are made of (`Proofs/BuildLocal.lean`) and for every command
-  (`Proofs/BuildLocalProg.lean`), then an induction over the program. -/
+  store; no builder object is a basic-block builder) shown for every store step the commands are made of
+  (`Proofs/BuildLocal.lean`) and for every command (`Proofs/BuildLocalProg.lean`), then an induction over the
+  program. -/
 
 section ProgramLevel
 open HugrVerif.Build HugrVerif.Store HugrVerif.BuildLocal
@@ -747,6 +756,14 @@ example : (match Build.run "" {} prog with
     | .ok st => (match st.getHugr 0 with | .ok s => some (linksList s) | .error _ => none)
     | .error _ => none) =
     some [((1, -1), (3, -1)), ((1, 0), (6, 0)), ((6, 0), (5, 0)), ((3, 0), (2, 0))] := by decide +kernel
+
+/-- `with d0.add_if(c, x) as if_: … ; with if_.add_else() as else_: …` inside a tracked graph: in the sub-language -/
+example : ∀ c ∈ ([.newTracked "t" [B, B] true, .addIf "t" "i" (.inp "t" 0) [.inp "t" 1],
+      .setOutputs "i" [.inp "i" 0], .addElse "i" "e", .setOutputs "e" [.inp "e" 0], .setTrackedOutputs "t"] : List Cmd),
+    InL c := by
+  intro c hc
+  simp only [List.mem_cons, List.mem_nil_iff, or_false] at hc
+  rcases hc with rfl | rfl | rfl | rfl | rfl | rfl <;> exact True.intro
 
 end ExProg
 
